@@ -58,6 +58,9 @@ type PrecLevel struct {
 	// Nums: explicit token numbers written after the names on the precedence line (`%left MINUS 301 PLUS`),
 	// parallel to Toks, 0 = none
 	Nums []int `json:"nums,omitempty"`
+	// Aliases: a string written after a name (and its number) on the precedence line (`%left PLUS "+" MINUS`),
+	// parallel to Toks, "" = none; as on %token lines it names no symbol
+	Aliases []string `json:"aliases,omitempty"`
 }
 
 type TypeDecl struct {
@@ -207,6 +210,9 @@ func (s *Spec) Render() string {
 			b.WriteString(" " + t)
 			if i < len(p.Nums) && p.Nums[i] != 0 {
 				fmt.Fprintf(&b, " %d", p.Nums[i])
+			}
+			if i < len(p.Aliases) && p.Aliases[i] != "" {
+				b.WriteString(" \"" + p.Aliases[i] + "\"")
 			}
 		}
 		b.WriteString("\n")
